@@ -15,6 +15,7 @@ from dliswriter.utils.internal.value_checkers import validate_string
 
 THEOREMS = ['Dlis.C17.hc_restored', 'Dlis.C17.hc_on_inside', 'Dlis.C17.names_restricted', 'Dlis.C17.hcChar_class',
             'Dlis.C17.enum_restricted', 'Dlis.C17.breach_raises_iff', 'Dlis.C17.file_set_numbers',
+            'Dlis.C17.channels_in_exactly_one_frame', 'Dlis.C17.channel_counts_only_in_mode',
             'Dlis.C17.pattern_pinned', 'Dlis.C17.setter_names_restricted', 'Dlis.C17.setter_enums_restricted',
             'Dlis.C17.setter_soft_outside', 'Dlis.C17.units_restricted', 'Dlis.Obligations.enums_eq',
             'Dlis.Obligations.convs_eq']
@@ -456,6 +457,11 @@ def run(tier):
             if st != 'ok' or list(vals) != want:
                 chk.fail('file-set-number:not-sequential', {'origins (set name, supplied number)': plan},
                          f'file set numbers in the mode: {vals}; a supplied number is kept, the others are the positions: {want}')
+        # (d'') the checks `write` makes first, in the mode: what it answers (written, or which check refuses - a channel
+        # listed by no frame or by several included) vs acceptWriteHc of Model/Checks.lean
+        from harness.props import c07 as _c07
+        _c07.reference_histories(chk, model, bres, tier, 'C17')
+        global_config.high_compat_mode = False
         # (e) the setters of every name-like and enumerated attribute of every object type, and the units setter of
         # every attribute, in and outside the mode, against the converter model and the mode oracle
         from harness import convert
